@@ -4,7 +4,7 @@ use base64::{engine::general_purpose, Engine};
 
 use crate::{BitFont, Buffer, CallbackAction, Caret, EngineResult, ParserError, Sixel, HEX_TABLE};
 
-use super::{parse_next_number, Parser};
+use super::{parse_next_number, Parser, MAX_MACRO_SIZE};
 
 #[derive(Debug, Clone, Copy)]
 enum HexMacroState {
@@ -103,6 +103,17 @@ impl Parser {
         self.macros.insert(id, self.parse_string[start_index..].to_string());
     }
 
+    /// Appends `count` copies of the repeat group `group` to the macro `rec`.
+    /// An expansion beyond `MAX_MACRO_SIZE` characters is an error (DEC terminals report a bounded macro space).
+    fn push_repeat_group(rec: &mut String, group: &str, count: i32) -> EngineResult<()> {
+        let count = count.max(0) as usize;
+        if rec.chars().count().saturating_add(count.saturating_mul(group.chars().count())) > MAX_MACRO_SIZE {
+            return Err(ParserError::Error(format!("macro larger than {MAX_MACRO_SIZE} characters")).into());
+        }
+        rec.push_str(&group.repeat(count));
+        Ok(())
+    }
+
     fn parse_hex_macro_sequence(&mut self, id: usize, start_index: usize) -> EngineResult<CallbackAction> {
         let mut state = HexMacroState::FirstHex;
         let mut read_repeat = false;
@@ -115,7 +126,7 @@ impl Parser {
                 HexMacroState::FirstHex => {
                     if ch == ';' && read_repeat {
                         read_repeat = false;
-                        (0..repeat_number).for_each(|_| marco_rec.push_str(&repeat_rec));
+                        Self::push_repeat_group(&mut marco_rec, &repeat_rec, repeat_number)?;
                         continue;
                     }
                     if ch == '!' {
@@ -157,7 +168,10 @@ impl Parser {
             }
         }
         if read_repeat {
-            (0..repeat_number).for_each(|_| marco_rec.push_str(&repeat_rec));
+            Self::push_repeat_group(&mut marco_rec, &repeat_rec, repeat_number)?;
+        }
+        if marco_rec.chars().count() > MAX_MACRO_SIZE {
+            return Err(ParserError::Error(format!("macro larger than {MAX_MACRO_SIZE} characters")).into());
         }
 
         self.macros.insert(id, marco_rec);
